@@ -1224,7 +1224,8 @@ class Interp:
         n_guards = len(self.pure_guards)
         try:
             if src.src_kind == "items":
-                self.assign(g.target, (Sym(kv), D.wrap(z3.Select(D.val, kv))))
+                item = D.comp_value(kv) if hasattr(D, "comp_value") else D.wrap(z3.Select(D.val, kv))
+                self.assign(g.target, (Sym(kv), item))
             else:
                 self.assign(g.target, Sym(kv))
             conds = [self.as_formula(self.eval(c)) for c in g.ifs]
@@ -1248,7 +1249,7 @@ class Interp:
         ve = getattr(val, "e", None)
         if ve is None:
             ve = to_z3(val)
-        if ve.eq(z3.Select(D.val, kv)):
+        if hasattr(D, "val") and ve.eq(z3.Select(D.val, kv)):
             return SymDict(dom, D.val, D.ksort, D.vsort, D.wrap)
         if ve.sort() == Val or True:
             return SymDict(dom, z3.Lambda([kv], ve), D.ksort, ve.sort())
